@@ -98,31 +98,30 @@ theorem opGet_allowed {cfg : Cfg} {W : World} {st : St} {s : SSt} (hW : W.Good) 
 
 /-! ### the descriptor's `__set__` -/
 
-theorem descSet_store (cfg : Cfg) (st : St) (o : Nat) (b : Bound) (v : PyVal) :
+theorem descSet_store (cfg : Cfg) (st : St) (o : Nat) (b : Bound) (v : PVal) :
     (descSet cfg st o b v).1 = { st with store := dset st.store (o, cfg.key b.iface b.pname) v } := by
   unfold descSet
   split
   · split <;> rfl
   · rfl
 
-theorem descSet_out (cfg : Cfg) (st : St) (o : Nat) (b : Bound) (v : PyVal) :
+theorem descSet_out (cfg : Cfg) (st : St) (o : Nat) (b : Bound) (v : PVal) :
     (descSet cfg st o b v).2 =
       if b.iprop.emits = .yes ∧ o ∈ st.attached then
-        (if wireOk v = true then
-          ([.signal o b.iface b.pname ((encodeVariant ⟨none, v⟩).map (·.1) |>.getD []) v], false)
-         else ([], true))
+        (match encodeVariant ⟨none, v⟩ with
+          | some (sg, w) => ([.signal o b.iface b.pname sg w], false)
+          | none => ([], true))
       else ([], false) := by
   unfold descSet
   by_cases he : b.iprop.emits = .yes ∧ o ∈ st.attached
   · simp only [he, and_self, if_true]
-    cases hw : wireOk v
-    · rw [(encodeVariant_raw v).2 hw]; simp
-    · obtain ⟨sg, e⟩ := (encodeVariant_raw v).1 hw
-      rw [e]; simp
+    cases encodeVariant ⟨none, v⟩ with
+    | none => rfl
+    | some x => rfl
   · simp only [he, if_false]
 
 theorem sim_write {cfg : Cfg} {W : World} {st : St} {s : SSt} (hc : cfg.Sound) (hS : Sim cfg W st s)
-    (o : Nat) (i p : Str) (v : PyVal) :
+    (o : Nat) (i p : Str) (v : PVal) :
     Sim cfg W { st with store := dset st.store (o, cfg.key i p) v } (s.write o i p v) := by
   refine ⟨hS.att, ?_⟩
   intro o2 b2 hb2
@@ -143,7 +142,7 @@ theorem sim_write {cfg : Cfg} {W : World} {st : St} {s : SSt} (hc : cfg.Sound) (
 /-! ### local assignment -/
 
 theorem assign_step {cfg : Cfg} {W : World} {st : St} {s : SSt} (hc : cfg.Sound) (hS : Sim cfg W st s)
-    (o : Nat) (a : Str) (v : PyVal) :
+    (o : Nat) (a : Str) (v : PVal) :
     Sim cfg W (step cfg W st (.assign o a v)).1 (next (sdeclOf W) s (.assign o a v)) ∧
     AssignAllowed (sdeclOf W) s o a v (step cfg W st (.assign o a v)).2 := by
   unfold AssignAllowed
@@ -162,32 +161,68 @@ theorem assign_step {cfg : Cfg} {W : World} {st : St} {s : SSt} (hc : cfg.Sound)
     simp only [toS, decide_eq_true_eq]
     by_cases he : b.iprop.emits = .yes ∧ o ∈ st.attached
     · rw [if_pos he] at h2
-      cases hw : wireOk v
-      · rw [hw] at h2
-        simp only [Bool.false_eq_true, if_false, Prod.mk.injEq] at h2
+      have he' : b.iprop.emits = .yes ∧ s.attached o = true := ⟨he.1, hatt.mp he.2⟩
+      rw [if_pos he']
+      cases henc : encodeVariant ⟨none, v⟩ with
+      | none =>
+        rw [henc] at h2
+        simp only [Prod.mk.injEq] at h2
         obtain ⟨rfl, rfl⟩ := h2
         refine ⟨hsim, ?_⟩
-        simp [hw, isSignal]
-      · rw [hw] at h2
-        simp only [if_true, Prod.mk.injEq] at h2
+        intro hsend
+        obtain ⟨sg, e⟩ := encodeVariant_sendable hsend
+        rw [e] at henc; cases henc
+      | some x =>
+        obtain ⟨sg, w⟩ := x
+        rw [henc] at h2
+        simp only [Prod.mk.injEq] at h2
         obtain ⟨rfl, rfl⟩ := h2
         refine ⟨hsim, ?_⟩
-        rw [if_pos ⟨he.1, hatt.mp he.2, rfl⟩]
+        intro hsend
+        obtain ⟨sg', e⟩ := encodeVariant_sendable hsend
+        rw [e] at henc
+        simp only [Option.some.injEq, Prod.mk.injEq] at henc
+        obtain ⟨rfl, rfl⟩ := henc
         exact ⟨_, rfl⟩
     · rw [if_neg he] at h2
       simp only [Prod.mk.injEq] at h2
       obtain ⟨rfl, rfl⟩ := h2
       refine ⟨hsim, ?_⟩
-      have : ¬ (b.iprop.emits = .yes ∧ s.attached o = true ∧ wireOk v = true) := by
-        intro h; exact he ⟨h.1, hatt.mpr h.2.1⟩
+      have : ¬ (b.iprop.emits = .yes ∧ s.attached o = true) := fun h => he ⟨h.1, hatt.mpr h.2⟩
       rw [if_neg this]
-      simp [isSignal]
+      rfl
+
+theorem assign_signal_count (cfg : Cfg) (W : World) (st : St) (o : Nat) (a : Str) (v : PVal) :
+    ((step cfg W st (.assign o a v)).2.filter isSignal).length ≤ 1 := by
+  simp only [step]
+  cases resolveAttr W a with
+  | none => simp [isSignal]
+  | some b =>
+    have h2 := descSet_out cfg st o b v
+    rcases hd : descSet cfg st o b v with ⟨st', outs, raised⟩
+    rw [hd] at h2
+    simp only at h2
+    by_cases he : b.iprop.emits = .yes ∧ o ∈ st.attached
+    · rw [if_pos he] at h2
+      cases henc : encodeVariant ⟨none, v⟩ with
+      | none =>
+        rw [henc] at h2; simp only [Prod.mk.injEq] at h2
+        obtain ⟨rfl, rfl⟩ := h2
+        simp [hd, isSignal]
+      | some x =>
+        rw [henc] at h2; simp only [Prod.mk.injEq] at h2
+        obtain ⟨rfl, rfl⟩ := h2
+        simp [hd, List.filter, isSignal]
+    · rw [if_neg he] at h2
+      simp only [Prod.mk.injEq] at h2
+      obtain ⟨rfl, rfl⟩ := h2
+      simp [hd, isSignal]
 
 /-! ### Set -/
 
 theorem opSet_step {cfg : Cfg} {W : World} {st : St} {s : SSt} (hW : W.Good) (hA : AttrConsistent W)
-    (hc : cfg.Sound) (hS : Sim cfg W st s) {o : Nat} (ho : o ∈ st.attached) {i : Str} (p : Str)
-    (hi : i ≠ []) {v : PyVal} (hw : wireOk v = true) :
+    (hM : Modelled W) (hc : cfg.Sound) (hS : Sim cfg W st s) {o : Nat} (ho : o ∈ st.attached) {i : Str} (p : Str)
+    (hi : i ≠ []) {v : PVal} (hw : wireOk v = true) :
     Sim cfg W (opSet cfg W st o i p v).1 (next (sdeclOf W) s (.set o i p v)) ∧
     SetAllowed (sdeclOf W) o i p v (opSet cfg W st o i p v).2 ∧
     (IsErr (opSet cfg W st o i p v).2 → (opSet cfg W st o i p v).1 = st) := by
@@ -211,7 +246,7 @@ theorem opSet_step {cfg : Cfg} {W : World} {st : St} {s : SSt} (hW : W.Good) (hA
       rw [if_neg this, if_neg this']
       simp only [opSet, hg, hip, hr, if_true]
       exact ⟨hS, ⟨_, rfl⟩, fun _ => trivial⟩
-    · have hcf := conforms_eq_hasType b0.iprop.sig v hw
+    · have hcf := conforms_eq_hasType b0.iprop.sig v (hM b0 (List.mem_of_find?_eq_some hf)) hw
       cases ht : HasTypeSig b0.iprop.sig v
       · have : ¬ (b0.iprop.access ≠ .read ∧ false = true) := fun h => by simp at h
         have this' : ¬ (s.attached o = true ∧ b0.iprop.access ≠ .read ∧ false = true) :=
@@ -235,19 +270,19 @@ theorem opSet_step {cfg : Cfg} {W : World} {st : St} {s : SSt} (hW : W.Good) (hA
         rw [hd] at h1 h2
         simp only at h1 h2
         rw [e1, e2, hbi, hbp] at h1 h2
-        rw [hw, hip'] at h2
-        simp only [if_true] at h2
+        obtain ⟨sgv, henc⟩ := encodeVariant_raw v hw
+        rw [henc, hip'] at h2
+        simp only at h2
+        have hpl : v.plain = v := plain_of_wireOk hw
         have hsim : Sim cfg W st' (s.write o i p v) := h1 ▸ sim_write hc hS o i p v
         by_cases he : b0.iprop.emits = .yes
         · rw [if_pos ⟨he, ho⟩] at h2
           simp only [Prod.mk.injEq] at h2
           obtain ⟨rfl, rfl⟩ := h2
-          have hop : opSet cfg W st o i p v =
-              (st', [Out.signal o i p ((Option.map (fun x => x.fst)
-                (encodeVariant { tag := none, val := v })).getD []) v] ++ [.ret]) := by
+          have hop : opSet cfg W st o i p v = (st', [Out.signal o i p sgv v] ++ [.ret]) := by
             simp [opSet, hg, hip, hr, hc.setChecks, hcf, hres, hd]
           rw [hop]
-          simp only [he, if_true]
+          simp only [he, if_true, hpl]
           refine ⟨hsim, ⟨_, rfl⟩, ?_⟩
           rintro ⟨e, he'⟩
           simp at he'
@@ -273,7 +308,7 @@ theorem step_fst_getAll (cfg : Cfg) (W : World) (st : St) (o : Nat) (i : Str) :
     (step cfg W st (.getAll o i)).1 = st := by
   simp only [step]; split <;> rfl
 
-theorem next_set_unattached (d : SDecl) (s : SSt) {o : Nat} (i p : Str) (v : PyVal)
+theorem next_set_unattached (d : SDecl) (s : SSt) {o : Nat} (i p : Str) (v : PVal)
     (h : s.attached o = false) : next d s (.set o i p v) = s := by
   simp only [next]
   split
@@ -281,7 +316,7 @@ theorem next_set_unattached (d : SDecl) (s : SSt) {o : Nat} (i p : Str) (v : PyV
   · rfl
 
 theorem step_sim {cfg : Cfg} {W : World} {st : St} {s : SSt} (hW : W.Good) (hA : AttrConsistent W)
-    (hc : cfg.Sound) (hS : Sim cfg W st s) (op : Op) (hop : GoodOp op) :
+    (hM : Modelled W) (hc : cfg.Sound) (hS : Sim cfg W st s) (op : Op) (hop : GoodOp op) :
     Sim cfg W (step cfg W st op).1 (next (sdeclOf W) s op) := by
   cases op with
   | «export» o =>
@@ -312,7 +347,7 @@ theorem step_sim {cfg : Cfg} {W : World} {st : St} {s : SSt} (hW : W.Good) (hA :
     by_cases ho : o ∈ st.attached
     · have : step cfg W st (.set o i p v) = opSet cfg W st o i p v := by simp [step, ho]
       rw [this]
-      exact (opSet_step hW hA hc hS ho p hi hw).1
+      exact (opSet_step hW hA hM hc hS ho p hi hw).1
     · have : step cfg W st (.set o i p v) = (st, [.err .unknownObject]) := by simp [step, ho]
       rw [this, next_set_unattached]
       · exact hS
@@ -320,7 +355,8 @@ theorem step_sim {cfg : Cfg} {W : World} {st : St} {s : SSt} (hW : W.Good) (hA :
         · rfl
         · exact absurd ((hS.att o).mpr h) ho
 
-theorem runFrom_sim {cfg : Cfg} {W : World} (hW : W.Good) (hA : AttrConsistent W) (hc : cfg.Sound)
+theorem runFrom_sim {cfg : Cfg} {W : World} (hW : W.Good) (hA : AttrConsistent W) (hM : Modelled W)
+    (hc : cfg.Sound)
     (h : List Op) : ∀ {st : St} {s : SSt}, Sim cfg W st s → GoodHist h →
       Sim cfg W (Props.runFrom cfg W st h) (PropsSpec.runFrom (sdeclOf W) s h) := by
   induction h with
@@ -328,7 +364,7 @@ theorem runFrom_sim {cfg : Cfg} {W : World} (hW : W.Good) (hA : AttrConsistent W
   | cons op t ih =>
     intro st s hS hg
     simp only [Props.runFrom, PropsSpec.runFrom]
-    exact ih (step_sim hW hA hc hS op (hg op List.mem_cons_self))
+    exact ih (step_sim hW hA hM hc hS op (hg op List.mem_cons_self))
       (fun x hx => hg x (List.mem_cons_of_mem _ hx))
 
 theorem sim_init (cfg : Cfg) (W : World) : Sim cfg W St.init SSt.init := by
@@ -336,9 +372,10 @@ theorem sim_init (cfg : Cfg) (W : World) : Sim cfg W St.init SSt.init := by
   · intro o; simp [St.init, SSt.init]
   · intro o b _; simp [St.init, SSt.init, dget]
 
-theorem run_sim {cfg : Cfg} {W : World} (hW : W.Good) (hA : AttrConsistent W) (hc : cfg.Sound)
+theorem run_sim {cfg : Cfg} {W : World} (hW : W.Good) (hA : AttrConsistent W) (hM : Modelled W)
+    (hc : cfg.Sound)
     {h : List Op} (hg : GoodHist h) :
     Sim cfg W (Props.run cfg W h) (PropsSpec.run (sdeclOf W) h) :=
-  runFrom_sim hW hA hc h (sim_init cfg W) hg
+  runFrom_sim hW hA hM hc h (sim_init cfg W) hg
 
 end Txdbus.Obj.Props
